@@ -40,6 +40,13 @@ func DeepCopy(node Node, document *Document) Node {
 			family = fam
 		}
 
+		// The copy may start below the family (a husband, wife or child node
+		// on its own, or a node that contains one). Such a node still knows
+		// the family it belongs to.
+		if noder, ok := node.(FamilyNoder); ok && family == nil {
+			family = noder.Family()
+		}
+
 		return shallowCopyNode(node, document, family), true
 	})
 }
